@@ -5,12 +5,14 @@ EXTENDS Repo
 ChainParent == [r |-> "", s |-> "r", l |-> "s"]          \* three tiers
 StarParent  == [r |-> "", s |-> "r", l |-> "r"]          \* one issuer, two subjects
 TwoParent   == [r |-> "", s |-> "r", l |-> ""]           \* two roots
+DeepParent  == [r |-> "", s |-> "r", m |-> "s", l |-> "m"]   \* four tiers (Ents = {"r", "s", "m", "l"})
 
 \* which issuers the user may write into a configuration (SetIssuer); r stays a root, so no cycle can arise
 NoAlt    == [e \in Ents |-> {}]
 ChainAlt == [r |-> {}, s |-> {"r", ""}, l |-> {"s", "r"}]
 StarAlt  == [r |-> {}, s |-> {"r"}, l |-> {"r", "s"}]
 TwoAlt   == [r |-> {}, s |-> {"r"}, l |-> {"", "s"}]
+DeepAlt  == [r |-> {}, s |-> {}, m |-> {"s", "r"}, l |-> {"m", "s"}]
 
 AllFlagSets  == SUBSET Flags
 NoAllFlagSets == SUBSET (Flags \ {"a"})
